@@ -1,49 +1,71 @@
 ------------------------------ MODULE MC_Tools ------------------------------
 (***************************************************************************)
 (* Design-level model of the example tools (C20):                          *)
-(* (1) the option classifier of examples/options.c over abstract argv --   *)
-(*     Run iff every documented condition holds;                           *)
+(* (1) the option classifier of examples/options.c over abstract argv, the *)
+(*     options in EVERY order (a left-to-right pass, then validation) --   *)
+(*     Run iff every documented condition holds, whatever the order;      *)
 (* (2) the chunked read/process/write loops: processing a file in chunks   *)
 (*     of CHUNK bytes equals processing it whole -- same length for the    *)
 (*     stream tool, all whole blocks (tail dropped) for the block tools -- *)
 (*     which holds because CHUNK is a multiple of the block size; a chunk  *)
 (*     size that is not (negative config) must fail.                       *)
 (***************************************************************************)
-EXTENDS Naturals, Sequences, TLC
+EXTENDS Naturals, Sequences, FiniteSets, TLC
 
-CONSTANTS CHUNK, BSZ, MaxLen
+CONSTANTS CHUNK, BSZ, MaxLen, Variant
 
-VARIABLES phase, tool, bsopt, keyst, keylen, twst, twlen, nfiles, flen, verdict, outlen
-vars == <<phase, tool, bsopt, keyst, keylen, twst, twlen, nfiles, flen, verdict, outlen>>
+VARIABLES phase, tool, argvseq, keyst, keylen, twst, twlen, nfiles, flen, verdict, outlen
+vars == <<phase, tool, argvseq, keyst, keylen, twst, twlen, nfiles, flen, verdict, outlen>>
 
 Tools == {"ctr", "tweak", "ecb"}
-BsOpts == {"none", "64", "128", "bad"}
-HexSt == {"absent", "ok", "nonhex", "empty"}
+HexSt == {"ok", "nonhex", "empty"}
 
-BlockOf(b) == IF b = "64" THEN 8 ELSE 16
+(* argv: the options in the order given; -b may occur more than once.  Every     *)
+(* sequence without repetition over these tokens (options may also be absent).   *)
+Tokens == {"b64", "b128", "bbad", "k", "t"}
+Argvs == UNION {{s \in [1..n -> Tokens] : \A i, j \in 1..n : i # j => s[i] # s[j]} : n \in 0..4}
 
-(* documented conditions *)
+Has(a, t) == \E i \in 1..Len(a) : a[i] = t
+LastB(a) ==     \* the block size in force after all options have been read
+    LET idx == {i \in 1..Len(a) : a[i] \in {"b64", "b128"}}
+    IN  IF idx = {} THEN 16
+        ELSE LET m == CHOOSE i \in idx : \A j \in idx : j <= i IN IF a[m] = "b64" THEN 8 ELSE 16
+
+(* documented conditions -- they speak about the options as a set, never about their order *)
 Documented ==
-    /\ bsopt # "bad"
-    /\ keyst = "ok"
-    /\ twst \in {"absent", "ok"}
+    /\ ~Has(argvseq, "bbad")
+    /\ Has(argvseq, "k") /\ keyst = "ok"
+    /\ (Has(argvseq, "t") => twst = "ok")
     /\ nfiles >= 2
-    /\ LET bs == BlockOf(bsopt)
+    /\ LET bs == LastB(argvseq)
            maxk == IF tool = "tweak" THEN 2 * bs ELSE 3 * bs
-       IN  keylen >= bs /\ keylen <= maxk /\ (twst = "ok" => twlen <= bs)
+       IN  keylen >= bs /\ keylen <= maxk /\ (Has(argvseq, "t") => twlen <= bs)
 
-(* parse_options as the code performs it (getopt order abstracted away) *)
+(* parse_options as the code performs it: a left-to-right pass over the options  *)
+(* that only records values (Variant "inloop": the counter/tweak length is       *)
+(* checked inside the pass against the block size in force AT THAT POINT, and    *)
+(* not again afterwards -- the deliberately wrong variant), then validation.     *)
+RECURSIVE Pass(_, _, _)
+Pass(a, i, st) ==      \* st = [bs, fail]
+    IF i > Len(a) \/ st.fail THEN st
+    ELSE LET t == a[i]
+         IN  CASE t = "b64"  -> Pass(a, i + 1, [st EXCEPT !.bs = 8])
+               [] t = "b128" -> Pass(a, i + 1, [st EXCEPT !.bs = 16])
+               [] t = "bbad" -> [st EXCEPT !.fail = TRUE]
+               [] t = "k"    -> IF keyst # "ok" THEN [st EXCEPT !.fail = TRUE] ELSE Pass(a, i + 1, st)
+               [] t = "t"    -> IF twst # "ok" THEN [st EXCEPT !.fail = TRUE]
+                                ELSE IF Variant = "inloop" /\ twlen > st.bs THEN [st EXCEPT !.fail = TRUE]
+                                ELSE Pass(a, i + 1, st)
+
 Classifier ==
-    IF bsopt = "bad" THEN "Exit1"
-    ELSE IF keyst \in {"nonhex", "empty"} THEN "Exit1"       \* parse_hex returns 0
-    ELSE IF twst \in {"nonhex", "empty"} THEN "Exit1"
-    ELSE IF nfiles < 2 THEN "Exit1"
-    ELSE IF keyst = "absent" THEN "Exit1"
-    ELSE LET bs == BlockOf(bsopt)
-         IN  IF tool = "tweak" /\ (keylen < bs \/ keylen > 2 * bs) THEN "Exit1"
-             ELSE IF tool # "tweak" /\ (keylen < bs \/ keylen > 3 * bs) THEN "Exit1"
-             ELSE IF twst = "ok" /\ twlen > bs THEN "Exit1"
-             ELSE "Run"
+    LET st == Pass(argvseq, 1, [bs |-> 16, fail |-> FALSE])
+    IN  IF st.fail THEN "Exit1"
+        ELSE IF nfiles < 2 THEN "Exit1"
+        ELSE IF ~Has(argvseq, "k") THEN "Exit1"
+        ELSE IF tool = "tweak" /\ (keylen < st.bs \/ keylen > 2 * st.bs) THEN "Exit1"
+        ELSE IF tool # "tweak" /\ (keylen < st.bs \/ keylen > 3 * st.bs) THEN "Exit1"
+        ELSE IF Variant # "inloop" /\ Has(argvseq, "t") /\ twlen > st.bs THEN "Exit1"
+        ELSE "Run"
 
 (* chunk loop: returns number of bytes written *)
 RECURSIVE Loop(_, _)
@@ -54,19 +76,19 @@ Loop(left, written) ==
          IN  Loop(left - rd, written + wr)
 
 Init ==
-    /\ phase = "start" /\ tool \in Tools /\ bsopt \in BsOpts /\ keyst \in HexSt
-    /\ keylen \in {0, 7, 8, 15, 16, 17, 24, 25, 32, 33, 48} /\ twst \in HexSt /\ twlen \in {1, 8, 9, 16}
-    /\ nfiles \in 0..2 /\ flen \in {0} /\ verdict = "none" /\ outlen = 0
+    /\ phase = "start" /\ tool \in Tools /\ argvseq \in Argvs /\ keyst \in HexSt
+    /\ keylen \in {7, 8, 16, 17, 24, 32, 33, 48, 49} /\ twst \in HexSt /\ twlen \in {1, 8, 9, 16}
+    /\ nfiles \in 1..2 /\ flen \in {0} /\ verdict = "none" /\ outlen = 0
 
 Classify ==
     /\ phase = "start" /\ phase' = "classified"
     /\ verdict' = Classifier
-    /\ UNCHANGED <<tool, bsopt, keyst, keylen, twst, twlen, nfiles, flen, outlen>>
+    /\ UNCHANGED <<tool, argvseq, keyst, keylen, twst, twlen, nfiles, flen, outlen>>
 
 Process ==
     /\ phase = "classified" /\ verdict = "Run" /\ phase' = "done"
     /\ \E n \in 0..MaxLen : flen' = n /\ outlen' = Loop(n, 0)
-    /\ UNCHANGED <<tool, bsopt, keyst, keylen, twst, twlen, nfiles, verdict>>
+    /\ UNCHANGED <<tool, argvseq, keyst, keylen, twst, twlen, nfiles, verdict>>
 
 Next == Classify \/ Process
 Spec == Init /\ [][Next]_vars
